@@ -59,7 +59,7 @@ def run_translator():
     rc, out = build_translator()
     if rc != 0:
         return rc, out
-    return sh([exe, REPO, os.path.join(LEAN, "Amqp", "Gen")])
+    return sh([exe, REPO, os.path.join(LEAN, "Amqp", "Gen"), os.path.join(HARNESS, "src", "gen_typed.rs")])
 
 
 def lake_build(targets):
